@@ -73,11 +73,24 @@ def build_repo_bins():
 
 
 def vh(args, timeout=3600):
-    rc, out = run([VH] + [str(a) for a in args], timeout=timeout)
-    if rc != 0:
-        sys.stdout.write(out[-4000:])
+    """runs the harness; its stderr (which external solver processes inherit) goes to work/vh_stderr.log"""
+    os.makedirs(os.path.join(VERIF, "work"), exist_ok=True)
+    errp = os.path.join(VERIF, "work", "vh_stderr.log")
+    with open(errp, "ab") as ef:
+        try:
+            p = subprocess.run([VH] + [str(a) for a in args], stdout=subprocess.PIPE, stderr=ef, timeout=timeout, text=True, errors="replace")
+        except subprocess.TimeoutExpired:
+            raise ToolError("timeout: vh %s" % " ".join(str(a) for a in args[:6]))
+    if p.returncode != 0:
+        sys.stdout.write((p.stdout or "")[-2000:])
+        try:
+            sys.stdout.write(open(errp, errors="replace").read()[-2000:])
+        except OSError:
+            pass
         raise ToolError("harness command failed: vh %s" % " ".join(str(a) for a in args[:6]))
-    return out
+    if os.path.getsize(errp) > 50_000_000:
+        open(errp, "w").close()
+    return p.stdout or ""
 
 
 # ----------------------------------------------------------------------------------------------------------------
